@@ -13,6 +13,7 @@ import (
 	"hash/fnv"
 	"math/rand/v2"
 	"strings"
+	"sync"
 	"time"
 
 	"cuelabs.dev/go/oci/ociregistry"
@@ -489,6 +490,103 @@ func listingUnderDoneContext(run *evid.Run, idx int) {
 	}
 }
 
+// patientConsumer: Tags and Referrers of a rejected repository, ranged over by a consumer that records
+// an error and carries on (`if err != nil { errs = append(errs, err); continue }` is a legal way to
+// consume a Seq). The rejection is final: the wrapped registry is not invoked and nothing of the
+// repository's content is delivered, however long the consumer keeps asking.
+func patientConsumer(run *evid.Run, idx int) {
+	var mu sync.Mutex
+	var invoked []string
+	backend := &ociregistry.Funcs{
+		Tags_: func(ctx context.Context, repo, startAfter string) ociregistry.Seq[string] {
+			mu.Lock()
+			invoked = append(invoked, "Tags "+repo)
+			mu.Unlock()
+			return ociregistry.SliceSeq([]string{"v1", "v2"})
+		},
+		Referrers_: func(ctx context.Context, repo string, d ociregistry.Digest, at string) ociregistry.Seq[ociregistry.Descriptor] {
+			mu.Lock()
+			invoked = append(invoked, "Referrers "+repo)
+			mu.Unlock()
+			return ociregistry.SliceSeq([]ociregistry.Descriptor{{MediaType: "application/x-opaque", Digest: d, Size: 1}})
+		},
+		Repositories_: func(ctx context.Context, startAfter string) ociregistry.Seq[string] {
+			mu.Lock()
+			invoked = append(invoked, "Repositories")
+			mu.Unlock()
+			return ociregistry.SliceSeq([]string{"public/a", "secret/b"})
+		},
+	}
+	rejectAll := idx%3 == 2 // then the catalog is rejected too
+	allow := func(repo string) bool {
+		return !rejectAll && repo != "secret/b" && repo != "*" || !rejectAll && repo == "*"
+	}
+	for _, sel := range []bool{false, true} {
+		var reg ociregistry.Interface
+		variant := "accesschecker"
+		if sel {
+			variant = "select"
+			reg = ocifilter.Select(backend, func(repo string) bool { return allow(repo) })
+		} else {
+			reg = ocifilter.AccessChecker(backend, func(repo string, kind ocifilter.AccessKind) error {
+				if !allow(repo) {
+					return &policyErr{repo, kind}
+				}
+				return nil
+			})
+		}
+		for _, method := range []string{"Tags", "Referrers", "Repositories"} {
+			if method == "Repositories" && (!rejectAll || sel) {
+				continue // Select lets the catalog through by design; only a checker that rejects "*" refuses it
+			}
+			mu.Lock()
+			invoked = nil
+			mu.Unlock()
+			var delivered, errs []string
+			calls := 0
+			patient := func(item string, err error) bool {
+				calls++
+				if err != nil {
+					errs = append(errs, err.Error())
+				} else {
+					delivered = append(delivered, item)
+				}
+				return calls < 10
+			}
+			run.Eval(1)
+			if !run.Case("total/"+variant, map[string]any{"op": method + " on a rejected repository, consumer continues after the error"}, func() {
+				switch method {
+				case "Tags":
+					reg.Tags(context.Background(), "secret/b", "")(patient)
+				case "Referrers":
+					reg.Referrers(context.Background(), "secret/b", "sha256:e3b0c44298fc1c149afbf4c8996fb92427ae41e4649b934ca495991b7852b855", "")(func(d ociregistry.Descriptor, err error) bool {
+						return patient(string(d.Digest), err)
+					})
+				case "Repositories":
+					reg.Repositories(context.Background(), "")(patient)
+				}
+			}) {
+				continue
+			}
+			run.Count("patient_consumer_listings", 1)
+			run.Distinct(fmt.Sprintf("patient-consumer/%s/%s", variant, method))
+			mu.Lock()
+			inv := append([]string(nil), invoked...)
+			mu.Unlock()
+			wit := map[string]any{"variant": variant, "method": method, "delivered": delivered, "errors": errs, "wrapped_registry_calls": inv}
+			if len(inv) > 0 {
+				run.Violation("backend-invoked/"+variant+"/"+method+"/patient-consumer", fmt.Sprintf("%s on a rejected repository invoked the wrapped registry (%q) once the consumer carried on after the rejection", method, inv), wit)
+			}
+			if len(delivered) > 0 {
+				run.Violation("rejected-call-succeeded/"+variant+"/"+method+"/patient-consumer", fmt.Sprintf("%s on a rejected repository delivered %q after the rejection", method, delivered), wit)
+			}
+			if len(errs) == 0 {
+				run.Violation("rejected-call-succeeded/"+variant+"/"+method+"/no-error", fmt.Sprintf("%s on a rejected repository delivered no error", method), wit)
+			}
+		}
+	}
+}
+
 func main() {
 	run := evid.Start("C12", "exploration")
 	run.SetRule("exhaustive core: every Interface method × every allow/deny assignment to the (repository, access kind) pairs it needs (both sides of a mount) × {AccessChecker, Select} × populated backend states; then random histories under random pure policies (hash of seed, name, kind) with the twin registry kept in step for allowed calls. " +
@@ -617,6 +715,10 @@ func main() {
 		listingUnderDoneContext(run, i)
 	}
 	run.FloorCounter("listings_under_done_context", 200)
+	for i := 0; i < 12; i++ {
+		patientConsumer(run, i)
+	}
+	run.FloorCounter("patient_consumer_listings", 40)
 	run.FloorCounter("listing_filtered_out", 10)
 	run.FloorCounter("star_name_calls", 20)
 	run.Finish()
